@@ -22,6 +22,7 @@ fn base_cfg(time_based: bool) -> CbCfg {
         threshold: 0.5,
         min_calls: Some(2),
         wait_ms: 30,
+        wait_shave_us: 0,
         permitted: 1,
         slow_ms: None,
         slow_rate: 1.0,
@@ -29,6 +30,7 @@ fn base_cfg(time_based: bool) -> CbCfg {
         fallback: false,
         fallback_gated: false,
         classifier_first: false,
+        preset_start: false,
     }
 }
 
@@ -59,6 +61,22 @@ fn c03_configs(tier: Tier) -> Vec<c03::C03> {
                 cfg.min_calls = Some(1);
                 v.push(c03::C03 { cfg, callers: 3, max_ticks: tier.pick(2, 4), max_drops: 0, max_force: 1, grid: 10, nested: 0 });
             }
+            // configured from the fast_fail() preset, every setting overridden afterwards
+            let mut cfg = base_cfg(time_based);
+            cfg.fallback = fallback;
+            cfg.window_size = 1;
+            cfg.min_calls = Some(1);
+            cfg.preset_start = true;
+            v.push(c03::C03 { cfg, callers: 3, max_ticks: 3, max_drops: 0, max_force: 1, grid: 10, nested: 0 });
+            // a wait below one millisecond (0.9 ms): on whole-millisecond instants the shield
+            // covers exactly the instant of the opening
+            let mut cfg = base_cfg(time_based);
+            cfg.fallback = fallback;
+            cfg.window_size = 1;
+            cfg.min_calls = Some(1);
+            cfg.wait_ms = 1;
+            cfg.wait_shave_us = 100;
+            v.push(c03::C03 { cfg, callers: 3, max_ticks: 2, max_drops: 0, max_force: 1, grid: 1, nested: 0 });
             // emulated lock contention, including a caller polled from inside the announcement
             // of the opening
             let mut cfg = base_cfg(time_based);
@@ -111,6 +129,19 @@ fn c09_configs(tier: Tier) -> Vec<c09::C09> {
             if permitted == 2 {
                 // callers 0,1 are used by the prelude; 2,3,4 arrive in the second half-open period
                 v.push(c09::C09 { cfg: cfg.clone(), callers: 5, max_ticks: 0, max_drops: 1, prepared: true, straggler: true, nested: 0, grid: 10, max_force: 0 });
+            }
+            // configured from the fast_fail() preset, every setting overridden afterwards
+            {
+                let mut f = cfg.clone();
+                f.preset_start = true;
+                v.push(c09::C09 { cfg: f, callers: permitted + 2, max_ticks: 2, max_drops: 0, prepared: true, straggler: false, nested: 0, grid: 10, max_force: 0 });
+            }
+            // the breaker converted with with_fallback(..): callers beyond the limit are answered by
+            // the fallback and must not reach the inner service either
+            {
+                let mut f = cfg.clone();
+                f.fallback = true;
+                v.push(c09::C09 { cfg: f, callers: permitted + 2, max_ticks: 2, max_drops: 1, prepared: true, straggler: false, nested: 0, grid: 10, max_force: 0 });
             }
             // the breaker is forced open again while trial calls of a half-open period are still
             // running; the wait is one grid step
